@@ -98,6 +98,8 @@ def gen(rng, isa, script=None, load_via=None):
             if all(env[r] == (r, 0) for r in [B] + ([I] if I else [])):
                 lines.append(store_txt)
                 killed = True
+                # "in between" now means between THIS store and the load: copies made earlier are not tracked
+                env = {r: (r, 0) for r in regs}
     # the load
     want_equal = rng.random() < 0.55
     cands = [r for r in regs if env[r] and env[r][0] == B]
